@@ -441,12 +441,21 @@ class Reporter:
                 continue
             if len(ctx.reported) >= 5:
                 continue
+            # Every failure is minimised before it is bucketed (cheap for
+            # the in-process oracles, a gfortran run per step otherwise).
+            # Beyond the cap a failure is only reported - unminimised - if
+            # nothing has been reported for its oracle yet; the others are
+            # counted (they are almost surely more of the same).
             nmin = self.minimised.get(oracle, 0)
             spec = ent["spec"]
-            if nmin < 4:
+            limit = 25 if oracle in ("reread", "write") else 4
+            if nmin < limit:
                 self.minimised[oracle] = nmin + 1
                 spec, msg2 = self._minimise(spec, oracle)
                 msg = msg2 or msg
+            elif any(b.startswith(oracle + ":") for b in ctx.reported):
+                ctx.label(f"unminimised_failure_not_reported:{oracle}")
+                continue
             case = {"tree": spec, "oracle": oracle,
                     "found_in": G.canon(ent["spec"])[:2000]}
             ctx.fail_now(f"{oracle}:{skeleton(spec)}"[:120], case, msg)
